@@ -14,15 +14,21 @@ import (
 	"strings"
 )
 
+type vfsInode struct {
+	content string
+}
+
 type vfsFile struct {
-	name    string
+	name    string // the name it was opened under (what (*os.File).Name reports)
+	ino     *vfsInode
 	off     int
 	closed  bool
 	writing bool
 }
 
 type vfsState struct {
-	files   map[string]string // path -> content
+	files   map[string]string // path -> content (view, kept in sync with inodes)
+	inodes  map[string]*vfsInode
 	dirs    map[string]bool
 	open    map[*os.File]*vfsFile
 	step    int
@@ -36,7 +42,7 @@ type vfsState struct {
 var vfs = newVFS()
 
 func newVFS() *vfsState {
-	return &vfsState{files: map[string]string{}, dirs: map[string]bool{".": true}, open: map[*os.File]*vfsFile{}, crashAt: -1, failOpen: map[string]bool{}}
+	return &vfsState{files: map[string]string{}, inodes: map[string]*vfsInode{}, dirs: map[string]bool{".": true}, open: map[*os.File]*vfsFile{}, crashAt: -1, failOpen: map[string]bool{}}
 }
 
 func vfsReset() { vfs = newVFS() }
@@ -76,28 +82,36 @@ func vfsCreateTemp(dir, pattern string) (*os.File, error) {
 		name = pattern[:i] + suffix + pattern[i+1:]
 	}
 	p := filepath.Join(dir, name)
+	ino := &vfsInode{}
+	vfs.inodes[p] = ino
 	vfs.files[p] = ""
 	f := &os.File{}
-	vfs.open[f] = &vfsFile{name: p, writing: true}
+	vfs.open[f] = &vfsFile{name: p, ino: ino, writing: true}
 	return f, nil
 }
 
 func vfsCreate(name string) (*os.File, error) {
 	vfs.tick("create " + name)
+	ino := &vfsInode{}
+	vfs.inodes[name] = ino
 	vfs.files[name] = ""
 	f := &os.File{}
-	vfs.open[f] = &vfsFile{name: name, writing: true}
+	vfs.open[f] = &vfsFile{name: name, ino: ino, writing: true}
 	return f, nil
 }
 
 func vfsOpen(name string) (*os.File, error) {
 	content, ok := vfs.files[name]
-	_ = content
 	if !ok || vfs.failOpen[name] {
 		return nil, &fs.PathError{Op: "open", Path: name, Err: fs.ErrNotExist}
 	}
+	ino := vfs.inodes[name]
+	if ino == nil { // file planted directly by a harness
+		ino = &vfsInode{content: content}
+		vfs.inodes[name] = ino
+	}
 	f := &os.File{}
-	vfs.open[f] = &vfsFile{name: name}
+	vfs.open[f] = &vfsFile{name: name, ino: ino}
 	return f, nil
 }
 
@@ -119,10 +133,12 @@ func vfsFileWriteString(f *os.File, s string) (int, error) {
 		case 3:
 			n = len(s) - 1
 		}
-		vfs.files[vf.name] += s[:n]
+		vf.ino.content += s[:n]
+		vfs.sync()
 	}
 	vfs.tick("write " + vf.name)
-	vfs.files[vf.name] += s
+	vf.ino.content += s
+	vfs.sync()
 	return len(s), nil
 }
 
@@ -145,7 +161,7 @@ func vfsFileRead(f *os.File, b []byte) (int, error) {
 	if vf == nil || vf.closed {
 		return 0, fs.ErrClosed
 	}
-	content := vfs.files[vf.name]
+	content := vf.ino.content
 	if vf.off >= len(content) {
 		return 0, io.EOF
 	}
@@ -163,8 +179,15 @@ func vfsRename(oldpath, newpath string) error {
 	if !vfs.dirs[filepath.Dir(newpath)] {
 		return &fs.PathError{Op: "rename", Path: newpath, Err: fs.ErrNotExist}
 	}
+	_ = c
+	ino := vfs.inodes[oldpath]
+	if ino == nil {
+		ino = &vfsInode{content: c}
+	}
 	delete(vfs.files, oldpath)
-	vfs.files[newpath] = c
+	delete(vfs.inodes, oldpath)
+	vfs.inodes[newpath] = ino
+	vfs.files[newpath] = ino.content
 	return nil
 }
 
@@ -174,6 +197,7 @@ func vfsRemove(name string) error {
 	}
 	vfs.tick("remove " + name)
 	delete(vfs.files, name)
+	delete(vfs.inodes, name)
 	return nil
 }
 
@@ -195,4 +219,14 @@ func (v *vfsState) paths() []string {
 	}
 	sort.Strings(names)
 	return names
+}
+
+// sync refreshes the path -> content view from the inodes (a file keeps receiving the writes
+// made through an open handle after it has been renamed).
+func (v *vfsState) sync() {
+	for p, ino := range v.inodes {
+		if _, ok := v.files[p]; ok {
+			v.files[p] = ino.content
+		}
+	}
 }
